@@ -234,6 +234,14 @@ def portable_docs(level):
     for dq in ['"a\\\n  b"', '"a \\\n  b"', '"a\\\n\\ b"', '"a\n\n  b"', '"a\n  b\n\n  c"', '"\\\n"', '"a\\\n\n b"', "'a\n\n  b'", "'a\n  b'", 'a\n  b\n\n  c', '"a\\\n  \\\n  b"']:
         for fr in ('%s\n', 'k: %s\n', '- %s\n', '[%s]\n', '--- %s\n...\n'):
             yield ('multiline', dq, fr), fr % dq
+    # (3c) implicit keys around the 1024-character simple-key limit, and empty entries of indentless sequences
+    for n in (126, 127, 128, 129, 1021, 1022, 1023, 1024, 1025, 1026):
+        for fr in ('%s: v\n', '"%s": v\n', '{%s: v}\n', '- %s: v\n', '%s   : v\n', '? %s\n: v\n', 'k: {%s: v}\n'):
+            pad = n - (2 if fr.startswith('"') else 0) - (3 if '   :' in fr else 0)
+            yield ('longkey', n, fr), fr % ('k' * pad)
+    for t in ['a:\n- x\n-\nb: 1\n', 'a:\n-\n- x\nb: 1\n', 'a:\n-\nb:\n-\n', '? a\n:\n- x\n-\n? b\n', 'a:\n- x\n-\n', '- a:\n  - x\n  -\n  b: 1\n', 'a:\n- - x\n  -\n-\nb: 2\n',
+              'a:\n- &x\n- !!str\n-\nb: *x\n', 'a:\n-\n\n# c\nb: 1\n', 'a:\n- x\n- \nb: 1\n...\n']:
+        yield ('indentless', t), t
     # (4) malformed classes named by the property
     bad = [('undef-alias', '*u\n'), ('undef-alias', '- *u\n'), ('undef-alias', 'a: *u\n'), ('undef-alias', '[&a x, *b]\n'),
            ('undef-alias', '- &a x\n--- \n- *a\n'), ('dup-anchor', '- &a x\n- &a y\n'), ('dup-anchor', '&a [&a x]\n'),
